@@ -73,8 +73,8 @@ impl Property for C18 {
     }
     fn cases(&self, tier: Tier) -> usize {
         match tier {
-            Tier::Quick => 16_000,
-            Tier::Thorough => 400_000,
+            Tier::Quick => 60_000,
+            Tier::Thorough => 1_000_000,
         }
     }
     fn tape_max(&self) -> usize {
